@@ -103,7 +103,7 @@ let run_model (c : case) =
   resolve RZ.range_vs Z.eqb fuel (n_of_int c.rootp) (z_of_int c.rootv) (List.map model_ev c.trace)
 
 (* memo of the last case so that eval and oracle share one model run *)
-let last : (Sx.t * ((RZ.range, z) outcome * (RZ.range, z) state * (((n * RZ.range) list * (n * z) list) * nat) list)) option ref = ref None
+let last : (Sx.t * ((RZ.range, z) outcome * (RZ.range, z) state * (((n * RZ.range) list * (n * (z * RZ.range)) list) * nat) list)) option ref = ref None
 let model_of (cs : Sx.t) (c : case) =
   match !last with
   | Some (k, r) when k == cs -> r
@@ -363,7 +363,7 @@ let check_fault (c : case) (rust : str) : str option =
 let is_fault_case (c : case) = List.exists (function Sx.L (Sx.A "fault" :: _) -> true | _ -> false) c.extra
 
 (* C14 on the model's decision log *)
-let check_picks (c : case) (log : (((n * RZ.range) list * (n * z) list) * nat) list) : str option =
+let check_picks (c : case) (log : (((n * RZ.range) list * (n * (z * RZ.range)) list) * nat) list) : str option =
   let tr = Array.of_list c.trace in
   List.find_map (fun ((cands, queue), n2) ->
     let n2 = int_of_nat n2 in
@@ -383,9 +383,9 @@ let check_picks (c : case) (log : (((n * RZ.range) list * (n * z) list) * nat) l
          if n2 < Array.length tr then
            (match tr.(n2) with
             | Choose (p, _, _) ->
-              let mx = List.fold_left (fun m (_, z) -> max m (int_of_z z)) min_int queue in
+              let mx = List.fold_left (fun m (_, (z, _)) -> max m (int_of_z z)) min_int queue in
               (match List.assoc_opt (n_of_int p) queue with
-               | Some z when int_of_z z = mx -> None
+               | Some (z, _) when int_of_z z = mx -> None
                | _ -> Some (sp "choose_version asked about package %d whose priority is not maximal (decision %d)" p n2))
             | _ -> None)
          else None)) log
